@@ -2,22 +2,38 @@ package main
 
 import (
 	"fmt"
+	"math"
 
 	ad "github.com/pbenner/autodiff"
+	"github.com/pbenner/autodiff/algorithm/adam"
+	"github.com/pbenner/autodiff/algorithm/backSubstitution"
 	"github.com/pbenner/autodiff/algorithm/bfgs"
+	"github.com/pbenner/autodiff/algorithm/blahut"
 	"github.com/pbenner/autodiff/algorithm/cholesky"
 	"github.com/pbenner/autodiff/algorithm/determinant"
 	"github.com/pbenner/autodiff/algorithm/eigensystem"
+	"github.com/pbenner/autodiff/algorithm/givensRotation"
 	"github.com/pbenner/autodiff/algorithm/gradientDescent"
+	"github.com/pbenner/autodiff/algorithm/gramSchmidt"
+	"github.com/pbenner/autodiff/algorithm/hessenbergReduction"
+	"github.com/pbenner/autodiff/algorithm/householder"
+	"github.com/pbenner/autodiff/algorithm/householderBidiagonalization"
+	"github.com/pbenner/autodiff/algorithm/householderTridiagonalization"
 	"github.com/pbenner/autodiff/algorithm/matrixInverse"
+	"github.com/pbenner/autodiff/algorithm/msqrt"
+	"github.com/pbenner/autodiff/algorithm/msqrtInv"
 	"github.com/pbenner/autodiff/algorithm/newton"
 	"github.com/pbenner/autodiff/algorithm/qrAlgorithm"
 	"github.com/pbenner/autodiff/algorithm/rprop"
+	"github.com/pbenner/autodiff/algorithm/saga"
 	"github.com/pbenner/autodiff/algorithm/svd"
 )
 
-// Representative algorithm entry points: the caller's input (matrix / start point) must be
-// observably unchanged unless an InSitu option is passed (none is passed here).
+// Algorithm entry points: the caller's input (matrix / start point / further operands) must
+// be observably unchanged unless an InSitu option is passed (none is passed here). Every
+// package under algorithm/ is covered except gaussJordan and the Apply* helpers of
+// householder / givensRotation (they work in their arguments by definition) and lineSearch
+// (no container input).
 
 type ACase struct {
 	Algo string `json:"algorithm"`
@@ -37,10 +53,30 @@ var algoMats = [][][]float64{
 	{{2, 1, 1}, {1, 3, 0}, {1, 0, 4}},
 }
 
+// inadmissible inputs, used as the FIRST input of two-call histories only (twocall.go): a call
+// that fails must not poison the caller's InSitu object. Indices continue those of algoMats.
+var nan = math.NaN()
+var algoBadMats = [][][]float64{
+	{{1, 1}, {1, 1}},                    // two identical rows
+	{{0, 0}, {1, 2}},                    // zero row (also a zero pivot for back substitution)
+	{{1, 2}, {2, 1}},                    // symmetric, indefinite
+	{{nan, 1}, {1, 2}},                  // non-finite entry
+	{{1, 1, 0}, {1, 1, 0}, {0, 0, 1}},   // singular
+	{{1, 2, 0}, {2, 1, 0}, {0, 0, -1}},  // symmetric, indefinite
+	{{2, 1, 0}, {1, nan, 1}, {0, 1, 2}}, // non-finite entry
+}
+
+func algoMatData(k int) [][]float64 {
+	if k < len(algoMats) {
+		return algoMats[k]
+	}
+	return algoBadMats[k-len(algoMats)]
+}
+
 var algoX0 = [][]float64{{1, 2}, {-1, 0.5}, {3, -2}}
 
 func algoMatrix(typ string, k int, view string) (m ad.Matrix, parent ad.Matrix) {
-	a := algoMats[k]
+	a := algoMatData(k)
 	n := len(a)
 	T := scalarType(typ)
 	switch view {
@@ -95,10 +131,87 @@ func algoVector(typ string, k int, view string) (x ad.Vector, parent ad.Vector) 
 	return x, x
 }
 
-var algoNames = []string{"matrixInverse", "determinant", "cholesky", "qrAlgorithm", "svd", "eigensystem", "rprop", "bfgs", "newton", "gradientDescent"}
+var algoNames = []string{"matrixInverse", "determinant", "cholesky", "qrAlgorithm", "svd", "eigensystem", "rprop", "bfgs", "newton", "gradientDescent",
+	"msqrt", "msqrtInv", "gramSchmidt", "hessenbergReduction", "householderBidiagonalization", "householderTridiagonalization", "backSubstitution",
+	"householder", "givensRotation", "blahut", "saga", "adam"}
 
+// algoIsOptimizer: the primary input is a vector (start point / operand vector)
 func algoIsOptimizer(a string) bool {
-	return a == "rprop" || a == "bfgs" || a == "newton" || a == "gradientDescent"
+	switch a {
+	case "rprop", "bfgs", "newton", "gradientDescent", "householder", "saga", "adam":
+		return true
+	}
+	return false
+}
+
+// least squares data of the saga objective: f_i(x) = (d_i.x - t_i)^2 / 2
+var sagaData = [][]float64{{1, 0}, {0, 1}, {1, 1}, {1, -1}}
+var sagaTarget = []float64{1, 2, 3, -1}
+
+func sagaObjective(variant int) interface{} {
+	res := func(i int, x ad.DenseFloat64Vector) float64 {
+		return sagaData[i][0]*x[0] + sagaData[i][1]*x[1] - sagaTarget[i]
+	}
+	dense := func(i int, w float64) ad.DenseFloat64Vector {
+		return ad.NewDenseFloat64Vector([]float64{w * sagaData[i][0], w * sagaData[i][1]})
+	}
+	sparse := func(i int, w float64) ad.SparseConstFloat64Vector {
+		var idx []int
+		var val []float64
+		for j, v := range sagaData[i] {
+			if v != 0 {
+				idx = append(idx, j)
+				val = append(val, w*v)
+			}
+		}
+		return ad.NewSparseConstFloat64Vector(idx, val, 2)
+	}
+	switch variant {
+	case 0:
+		return saga.Objective1Dense(func(i int, x ad.DenseFloat64Vector) (float64, float64, ad.DenseFloat64Vector, error) {
+			r := res(i, x)
+			return r * r / 2, r, dense(i, 1), nil
+		})
+	case 1:
+		return saga.Objective2Dense(func(i int, x ad.DenseFloat64Vector) (float64, ad.DenseFloat64Vector, error) {
+			r := res(i, x)
+			return r * r / 2, dense(i, r), nil
+		})
+	case 2, 4:
+		return saga.Objective1Sparse(func(i int, x ad.DenseFloat64Vector) (float64, float64, ad.SparseConstFloat64Vector, error) {
+			r := res(i, x)
+			return r * r / 2, r, sparse(i, 1), nil
+		})
+	}
+	return saga.Objective2Sparse(func(i int, x ad.DenseFloat64Vector) (float64, ad.SparseConstFloat64Vector, error) {
+		r := res(i, x)
+		return r * r / 2, sparse(i, r), nil
+	})
+}
+
+// gradient of `objective` for adam.RunGradient
+func objectiveGradient(x, g ad.DenseFloat64Vector) error {
+	g[0] = 2*(x[0]-1) + x[1]/2
+	g[1] = 4*(x[1]+1) + x[0]/2
+	return nil
+}
+
+// a second input object of a call, in the same view class as the first
+func algoSecondVector(typ string, n, seed int, view string) (x ad.Vector, parent ad.Vector) {
+	T := scalarType(typ)
+	if view == "slice" {
+		parent = ad.NullDenseVector(T, n+1)
+		parent.At(0).SetFloat64(7)
+		for i := 0; i < n; i++ {
+			parent.At(i + 1).SetFloat64(float64(i + 1 + seed))
+		}
+		return parent.Slice(1, n+1), parent
+	}
+	x = ad.NullDenseVector(T, n)
+	for i := 0; i < n; i++ {
+		x.At(i).SetFloat64(float64(i + 1 + seed))
+	}
+	return x, x
 }
 
 func algoOptCount(a string) int {
@@ -117,6 +230,12 @@ func algoOptCount(a string) int {
 		return 3
 	case "newton":
 		return 3
+	case "hessenbergReduction", "householderBidiagonalization":
+		return 4
+	case "householderTridiagonalization", "adam", "blahut":
+		return 2
+	case "saga":
+		return 5
 	}
 	return 1
 }
@@ -163,8 +282,42 @@ func runAlgo(cs ACase) (fails []failure, outcome string) {
 		m, p := algoMatrix(cs.Typ, cs.In, cs.View)
 		in, parent = m, p
 	}
+	// further input objects of the call (operand vectors, scalars)
+	var extra []any
+	switch cs.Algo {
+	case "backSubstitution":
+		triu(in.(ad.Matrix))
+		n, _ := in.(ad.Matrix).Dims()
+		b, bp := algoSecondVector(cs.Typ, n, cs.In, map[string]string{"owning": "owning", "T": "owning", "slice": "slice"}[cs.View])
+		extra = []any{b, bp}
+	case "givensRotation":
+		extra = []any{ad.NewScalar(scalarType(cs.Typ), 3), ad.NewScalar(scalarType(cs.Typ), -4)}
+	case "blahut":
+		// a channel matrix (rows sum to one) in the requested view, and the input distribution
+		ch := in.(ad.Matrix)
+		n, _ := ch.Dims()
+		for i := 0; i < n; i++ {
+			for j := 0; j < n; j++ {
+				if i == j {
+					ch.At(i, j).SetFloat64(0.75 - 0.25*float64(n-2))
+				} else {
+					ch.At(i, j).SetFloat64(0.25)
+				}
+			}
+		}
+		p, pp := algoSecondVector(cs.Typ, n, 0, map[string]string{"owning": "owning", "T": "owning", "slice": "slice"}[cs.View])
+		for i := 0; i < n; i++ {
+			p.At(i).SetFloat64(1 / float64(n))
+		}
+		extra = []any{p, pp}
+	}
 	b0, b1 := obs(in, true), obs(parent, true)
+	bx := make([]string, len(extra))
+	for i, x := range extra {
+		bx[i] = obs(x, true)
+	}
 	var err error
+	na := false
 	perr := try(func() {
 		switch cs.Algo {
 		case "matrixInverse":
@@ -219,8 +372,71 @@ func runAlgo(cs ACase) (fails []failure, outcome string) {
 			}
 		case "gradientDescent":
 			_, err = gradientDescent.Run(objective, in.(ad.Vector), 0.05, gradientDescent.Epsilon{Value: 1e-4})
+		case "msqrt":
+			_, err = msqrt.Run(in.(ad.Matrix))
+		case "msqrtInv":
+			_, err = msqrtInv.Run(in.(ad.Matrix))
+		case "gramSchmidt":
+			_, _, err = gramSchmidt.Run(in.(ad.Matrix))
+		case "hessenbergReduction":
+			_, _, err = hessenbergReduction.Run(in.(ad.Matrix), hessenbergReduction.ComputeU{Value: cs.Opt&1 != 0}, hessenbergReduction.SetZero{Value: cs.Opt&2 != 0})
+		case "householderBidiagonalization":
+			_, _, _, err = householderBidiagonalization.Run(in.(ad.Matrix), householderBidiagonalization.ComputeU{Value: cs.Opt&1 != 0}, householderBidiagonalization.ComputeV{Value: cs.Opt&2 != 0})
+		case "householderTridiagonalization":
+			_, _, err = householderTridiagonalization.Run(in.(ad.Matrix), householderTridiagonalization.ComputeU{Value: cs.Opt&1 != 0})
+		case "backSubstitution":
+			_, err = backSubstitution.Run(in.(ad.Matrix), extra[0].(ad.Vector))
+		case "householder":
+			T := scalarType(cs.Typ)
+			x := in.(ad.Vector)
+			householder.Run(x, ad.NullScalar(T), ad.NullDenseVector(T, x.Dim()), ad.NullScalar(T), ad.NullScalar(T), ad.NullScalar(T))
+		case "givensRotation":
+			T := scalarType(cs.Typ)
+			givensRotation.Run(extra[0].(ad.Scalar), extra[1].(ad.Scalar), ad.NullScalar(T), ad.NullScalar(T))
+		case "blahut":
+			if cs.Opt == 0 {
+				blahut.Run(in.(ad.Matrix), extra[0].(ad.Vector), 5)
+			} else {
+				blahut.Run(in.(ad.Matrix), extra[0].(ad.Vector), 5, blahut.Lambda{Value: 0.5})
+			}
+		case "saga":
+			args := []interface{}{saga.Epsilon{Value: 1e-6}, saga.Gamma{Value: 0.1}, saga.Seed{Value: 1}, saga.MaxIterations{Value: 20}}
+			switch cs.Opt {
+			case 1:
+				args = append(args, saga.L1Regularization{Value: 0.125})
+			case 2:
+				args = append(args, saga.TikhonovRegularization{Value: 0.125})
+			case 3:
+				args = append(args, saga.L2Regularization{Value: 0.125})
+			case 4:
+				args = append(args, saga.JitUpdate{Value: &saga.JitUpdateL1{Lambda: 0.125}})
+			}
+			_, _, err = saga.Run(sagaObjective(cs.Opt), len(sagaData), in.(ad.Vector), args...)
+		case "adam":
+			if cs.Opt == 0 {
+				_, err = adam.Run(objective, in.(ad.Vector), adam.MaxIterations{Value: 30}, adam.StepSize{Value: 0.05})
+			} else {
+				x := in.(ad.Vector)
+				if _, ok := x.(ad.DenseFloat64Vector); !ok {
+					na = true // the gradient variant takes a DenseFloat64Vector only
+					return
+				}
+				_, err = adam.RunGradient(adam.DenseGradientF(objectiveGradient), x, adam.MaxIterations{Value: 30})
+			}
 		}
 	})
+	if na {
+		return nil, "n/a"
+	}
+	for i, x := range extra {
+		if s := obs(x, true); s != bx[i] {
+			key := fmt.Sprintf("algo-input|%s|%s|operand-%d", cs.Algo, cs.View, i/2+1)
+			if cs.Algo == "givensRotation" {
+				key = fmt.Sprintf("algo-input|%s|%s|operand-%d", cs.Algo, cs.View, i+1)
+			}
+			return []failure{{key, fmt.Sprintf("%s (option set %d, %s, input %d, %s views) changed a further input object: before %s, after %s", cs.Algo, cs.Opt, cs.Typ, cs.In, cs.View, bx[i], s)}}, "fail"
+		}
+	}
 	outcome = "unchanged"
 	if perr != "" {
 		outcome = "panic"
@@ -256,7 +472,13 @@ func enumACases(thorough bool, emit func(ACase)) {
 					}
 				} else {
 					for k := range algoMats {
+						if a == "givensRotation" && k > 0 {
+							continue // scalar inputs only
+						}
 						for _, view := range []string{"owning", "T", "slice"} {
+							if a == "givensRotation" && view != "owning" {
+								continue
+							}
 							emit(ACase{Algo: a, Opt: opt, Typ: typ, In: k, View: view})
 						}
 					}
